@@ -9,6 +9,7 @@ import (
 	"time"
 
 	"github.com/boz/kcache/filter"
+	"github.com/boz/kcache/nsname"
 	"github.com/boz/kcache/zzverif"
 	corev1 "k8s.io/api/core/v1"
 	metav1 "k8s.io/apimachinery/pkg/apis/meta/v1"
@@ -353,4 +354,62 @@ func VerifC12_Full() {
 		zzverif.Reach("C12/list-error")
 	}
 	cancel()
+}
+
+// VerifC12_NotReady: shutdown while the root is still waiting for its first list.
+// Every kind of filtered node (and an unfiltered one) hanging off a publisher whose
+// parent never became ready terminates when the root or the publisher is closed:
+// its Done() closes, its goroutines exit, and the API answers ErrNotRunning afterwards.
+func VerifC12_NotReady() {
+	t := newTreeR(4, false)
+	pub := t.nodes[0].pub
+	var done <-chan struct{}
+	var refilt func(filter.Filter) error
+	var sub func() error
+	switch zzverif.NondetInt("node", 0, 4) {
+	case 0:
+		s, err := pub.Subscribe()
+		zzverif.Assert(err == nil, "harness/attach")
+		done = s.Done()
+	case 1:
+		s, err := pub.SubscribeWithFilter(filter.Null())
+		zzverif.Assert(err == nil, "harness/attach")
+		done, refilt = s.Done(), s.Refilter
+	case 2:
+		s, err := pub.SubscribeForFilter()
+		zzverif.Assert(err == nil, "harness/attach")
+		done, refilt = s.Done(), s.Refilter
+	case 3:
+		c, err := pub.CloneWithFilter(filter.Null())
+		zzverif.Assert(err == nil, "harness/attach")
+		done, refilt = c.Done(), c.Refilter
+		sub = func() error { _, err := c.Subscribe(); return err }
+	default:
+		c, err := pub.CloneForFilter()
+		zzverif.Assert(err == nil, "harness/attach")
+		done, refilt = c.Done(), c.Refilter
+		sub = func() error { _, err := c.Subscribe(); return err }
+	}
+	if refilt != nil && zzverif.NondetInt("refilter-first", 0, 1) == 1 {
+		zzverif.Assert(refilt(filter.NSName(nsname.New("ns", "a"))) == nil, "harness/refilter")
+	}
+	if zzverif.NondetInt("settle", 0, 1) == 1 {
+		zzverif.Quiesce()
+	}
+	if zzverif.NondetInt("how", 0, 1) == 0 {
+		t.root.Close()
+	} else {
+		pub.Close()
+	}
+	<-done // the node terminates although its parent never became ready
+	<-pub.Done()
+	zzverif.Quiesce()
+	if refilt != nil {
+		zzverif.Assert(vCause(refilt(filter.All())) == ErrNotRunning, "C12/api-returns/refilter-after-done")
+	}
+	if sub != nil {
+		zzverif.Assert(vCause(sub()) == ErrNotRunning, "C12/api-returns/subscribe-after-done")
+	}
+	zzverif.Assert(zzverif.LiveLibGoroutines() <= 3, "C12/no-leak/not-ready") // the harness' parent cache actor
+	zzverif.Reach("C12/not-ready/done")
 }
